@@ -1,6 +1,6 @@
 //verif:package github.com/kstenerud/go-concise-encoding/internal/verifh/c20
 //verif:config cap=300 paths=600000
-//verif:bounds pointer graphs with recursion support on: (a) 3 struct nodes with two pointer fields each, every pointer nil or any node (4^6 topologies: self loops, cycles of length 2 and 3, shared targets), every payload a symbolic uint64; (b) 3 nodes whose children are a slice of 0..2 pointers to any node; (c) 2..3 nodes holding a map[string]*node of 0..2 entries; marshaled by the real iterator Session (go-duplicates pointer scan, markers and references), validated by the real rules, unmarshaled by the real builder Session into the same type; entry (d) sends graphs of 2 such nodes (thorough: also 3 nodes with fixed payloads) through the real CBE encoder and decoder in between
+//verif:bounds pointer graphs with recursion support on: (a) 3 struct nodes with two pointer fields each, every pointer nil or any node (4^6 topologies: self loops, cycles of length 2 and 3, shared targets), every payload a symbolic uint64; (b) 3 nodes whose children are a slice of 0..2 pointers to any node; (c) 2..3 nodes holding a map[string]*node of 0..2 entries; marshaled by the real iterator Session (go-duplicates pointer scan, markers and references), validated by the real rules, unmarshaled by the real builder Session into the same type; (e) a node with a slice of 5..6 children holding a back-edge and a shared pointer at any positions; (f) pointers of different types to one address (a struct and its first field); entry (d) sends graphs of 2 such nodes (thorough: also 3 nodes with fixed payloads) through the real CBE encoder and decoder in between
 //verif:assume reflect (incl. Value.Pointer as the identity of the engine's heap cell), sync.Map and WaitGroup are the engine's emulation / sequential model; topologies are chosen by engine-enumerated selectors, payloads are solver variables; termination = no path exhausts the 5M-instruction step budget; CTE in between (ANTLR) is outside reach
 package c20
 
@@ -233,4 +233,64 @@ func Verif_C20_MapGraph() {
 	m := &isoM{fwd: map[*M]*M{}, bwd: map[*M]*M{}, same: true}
 	verifrt.Assert(m.walk(nodes[0], got), "the unmarshaled graph has the same shape")
 	verifrt.Assert(m.same, "every node carries its original value")
+}
+
+// ---- (e) wide slices: references resolved after the slice has grown ------------
+
+// A node whose slice of children holds 5..6 pointers, one of them (at any
+// position) a back-edge to the node itself or a pointer shared with another
+// position: the reference is read while the slice under construction is still
+// small and resolved after it has been reallocated.
+func Verif_C20_WideSliceGraph() {
+	n := verifrt.Choice("kids", 2) + 5
+	root := &S{V: verifrt.U64("v")}
+	shared := &S{V: verifrt.U64("shared")}
+	back := verifrt.Choice("backEdgeAt", n)
+	dup := verifrt.Choice("sharedAlsoAt", n)
+	for i := 0; i < n; i++ {
+		switch {
+		case i == back:
+			root.Kids = append(root.Kids, root)
+		case i == dup || i == n-1:
+			root.Kids = append(root.Kids, shared)
+		default:
+			root.Kids = append(root.Kids, &S{V: uint64(i)})
+		}
+	}
+	cfg := config()
+	got, ok := unmarshal(cfg, marshal(cfg, root), &S{}).(*S)
+	verifrt.Assert(ok && got != nil, "a graph of the template's type is built")
+	m := &isoS{fwd: map[*S]*S{}, bwd: map[*S]*S{}, same: true}
+	verifrt.Assert(m.walk(root, got), "the unmarshaled graph has the same shape")
+	verifrt.Assert(m.same, "every node carries its original value")
+}
+
+// ---- (f) pointers of different types to one address -----------------------------
+
+type Inner struct {
+	X uint64
+	Y uint64
+}
+
+type Mixed struct {
+	A *Inner
+	B *uint64 // may point at A.X: same address as A, another type
+	C *Inner
+	D *uint64
+}
+
+func Verif_C20_SameAddressDifferentTypes() {
+	in := &Inner{X: verifrt.U64("x"), Y: verifrt.U64("y")}
+	other := verifrt.U64("other")
+	v := &Mixed{A: in, C: in}
+	if verifrt.Choice("bPointsIntoA", 2) == 1 {
+		v.B, v.D = &in.X, &in.X
+	} else {
+		v.B, v.D = &other, &in.Y
+	}
+	cfg := config()
+	got, ok := unmarshal(cfg, marshal(cfg, v), &Mixed{}).(*Mixed)
+	verifrt.Assert(ok && got != nil && got.A != nil && got.B != nil && got.C != nil && got.D != nil, "a value of the template's type with all pointers set is built")
+	verifrt.Assert(got.A == got.C, "pointers that were shared are shared again")
+	verifrt.Assert(verifrt.And(got.A.X == in.X, got.A.Y == in.Y, *got.B == *v.B, *got.D == *v.D), "every pointer leads to its original value")
 }
